@@ -1212,6 +1212,13 @@ func (c *hCtx) checkSymmetry() {
 				ok = ok && near(fmt.Sprintf("overlapping rotation by %d", r), in, []float64{t1, t2}, []float64{o1, o2})
 				ok = ok && near(fmt.Sprintf("apen rotation by %d", r), in, p2(ApproximateEntropyProto(rot, 2)), p2(ApproximateEntropyProto(x, 2)))
 			}
+			// the longest-run test chooses its block length by regime (8 / 128 / 10000)
+			lrBlock := 8
+			if n >= 750000 {
+				lrBlock = 10000
+			} else if n >= 6272 {
+				lrBlock = 128
+			}
 			// discarded tail: flip bits beyond the last whole block
 			tail := func(block int) []bool {
 				y := append([]bool{}, x...)
@@ -1222,7 +1229,7 @@ func (c *hCtx) checkSymmetry() {
 			}
 			ok = ok && near("blockfreq tail", in, p2(FrequencyWithinBlockProto(tail(1000), 1000)), p2(FrequencyWithinBlockProto(x, 1000)))
 			ok = ok && near("poker tail", in, p2(PokerProto(tail(8), 8)), p2(PokerProto(x, 8)))
-			ok = ok && near("longest run tail", in, p2(LongestRunOfOnesInABlockProto(tail(128), true)), p2(LongestRunOfOnesInABlockProto(x, true)))
+			ok = ok && near("longest run tail", in, p2(LongestRunOfOnesInABlockProto(tail(lrBlock), true)), p2(LongestRunOfOnesInABlockProto(x, true)))
 			ok = ok && near("rank tail", in, p2(MatrixRankProto(tail(1024), 32, 32)), p2(MatrixRankProto(x, 32, 32)))
 			ok = ok && near("linear complexity tail", in, p2(LinearComplexityProto(tail(500), 500)), p2(LinearComplexityProto(x, 500)))
 			ok = ok && near("maurer tail", in, p2(MaurerUniversalTest(tail(7))), p2(MaurerUniversalTest(x)))
@@ -1239,7 +1246,7 @@ func (c *hCtx) checkSymmetry() {
 			}
 			ok = ok && near("blockfreq block permutation", in, p2(FrequencyWithinBlockProto(swap(1000), 1000)), p2(FrequencyWithinBlockProto(x, 1000)))
 			ok = ok && near("poker block permutation", in, p2(PokerProto(swap(8), 8)), p2(PokerProto(x, 8)))
-			ok = ok && near("longest run block permutation", in, p2(LongestRunOfOnesInABlockProto(swap(128), true)), p2(LongestRunOfOnesInABlockProto(x, true)))
+			ok = ok && near("longest run block permutation", in, p2(LongestRunOfOnesInABlockProto(swap(lrBlock), true)), p2(LongestRunOfOnesInABlockProto(x, true)))
 			ok = ok && near("rank block permutation", in, p2(MatrixRankProto(swap(1024), 32, 32)), p2(MatrixRankProto(x, 32, 32)))
 			ok = ok && near("linear complexity block permutation", in, p2(LinearComplexityProto(swap(500), 500)), p2(LinearComplexityProto(x, 500)))
 			if !ok {
